@@ -96,13 +96,18 @@ func ReadHeaders(resp *protocol.Response, r network.Reader) error {
 	if err != nil {
 		return err
 	}
-	if resp.Header.StatusCode() == consts.StatusContinue {
-		// Read the next response according to http://www.w3.org/Protocols/rfc2616/rfc2616-sec8.html .
+	// Any number of interim responses may precede the final one (RFC 9110, section 15.2): skip them all,
+	// not only one "100 Continue". (Only the registered interim codes: 101 is final for the connection.)
+	for isInterim(resp.Header.StatusCode()) {
 		if err = ReadHeader(&resp.Header, r); err != nil {
 			return err
 		}
 	}
 	return nil
+}
+
+func isInterim(code int) bool {
+	return code == consts.StatusContinue || code == consts.StatusProcessing || code == 103 // 103 Early Hints
 }
 
 // ReadHeaderAndLimitBody ...
